@@ -67,7 +67,14 @@ func runOne(ctx context.Context, solver, file string, timeout time.Duration, see
 	_ = cmd.Wait()
 	close(done)
 	out := buf.String()
-	first := strings.TrimSpace(strings.SplitN(out, "\n", 2)[0])
+	first := ""
+	for _, ln := range strings.Split(out, "\n") {
+		// z3 prints warnings (e.g. a pattern it ignores) before the answer
+		if ln = strings.TrimSpace(ln); ln != "" && !strings.HasPrefix(ln, "WARNING") {
+			first = ln
+			break
+		}
+	}
 	res := "unknown"
 	switch first {
 	case "sat", "unsat", "unknown":
